@@ -107,7 +107,7 @@ CONSTANTS
   PEERIMPL = FALSE
   XorAcc <- SymXor
   GEN = TRUE
-INVARIANTS SPErrIsAtomic StoredIsFresh SPInvolution FingerprintsStable EndpointsSwap Emit
+INVARIANTS SPErrIsAtomic StoredIsFresh SPInvolution MetaListsReversed FingerprintsStable EndpointsSwap Emit
 """
 
 
